@@ -9,3 +9,7 @@ pub assume_specification<'a, T: Copy> [std::option::Option::<&T>::copied] (_0: s
     ensures r == match _0 { Some(x) => Some(*x), None => None };
 #[verifier::external_body]
 pub fn havoc_string() -> String { unimplemented!() }
+pub assume_specification<'a> [<String as PartialEq<&'a str>>::eq] (a: &String, b: &&str) -> (r: bool)
+    ensures r == (a@ == b@);
+pub assume_specification [<String as PartialEq<str>>::eq] (a: &String, b: &str) -> (r: bool)
+    ensures r == (a@ == b@);
